@@ -88,7 +88,7 @@ def transform(case, r, kind):
     else:
       panel['dates'] = [pd.Timestamp(d) for d in days]
   if 'scale' in kinds:
-    k = r.randrange(-3, 13)
+    k = r.choice([r.randrange(-3, 13), r.randrange(-3, 13), r.randrange(-30, -10), r.randrange(16, 32)])
     c = 2.0 ** k
     panel['values'] = panel['values'] * c
     if panel.get('dups'):
